@@ -7,7 +7,7 @@
 (* (hist is outside the VIEW and does not enlarge the search).                            *)
 EXTENDS ServerAuth
 VARIABLE hist
-Enc(q) == <<q.k, q.user, q.service, q.method, q.cb, q.sig, q.mic, q.change, q.mechs, q.mech_ok, q.tok>>
+Enc(q) == <<q.k, q.user, q.service, q.method, q.cb, q.sig, q.mic, q.change, q.mechs, q.mech_ok, q.tok, q.allowed>>
 CfgName == CHOOSE n \in ConfigNames : CfgOf(n) = cfg
 GInit == Init /\ hist = <<>>
 GNext == Next /\ hist' = Append(hist, Enc(req'))
